@@ -18,7 +18,8 @@
  *     M <blk> <size> | C <blk> <size> | R <old> <new> <size> | S <blk> | F <blk>     one per call
  *     @@PHASE <id> <compile|prepare|execute|vm_delete|program_delete|done>            progress marks
  *     @@OUTCOME <id> <COMPILE_ERROR r|PREPARE_ERROR r|RESULT|EXEC_ERROR r>
- *     A <blk> <hex return addresses, innermost first>     for blocks live at the end / bad frees
+ *     A <blk> <hex return addresses, innermost first> <seq>   for blocks live at the end / bad frees
+ *                                                              (seq = order of acquisition)
  *     @@OUT <id> <first bytes of what the program printed, escaped>
  *     @@END <id> status=<exit N|signal N|timeout>
  * Block numbers: pointers renumbered in order of first appearance inside the bracket, 0 = NULL.
@@ -60,6 +61,8 @@ static uint32_t g_vals[TAB_SIZE];
 static uint32_t g_next = 1;
 static unsigned char g_live[MAX_IDS];
 static void * g_site[MAX_IDS];
+static uint32_t g_seq[MAX_IDS];
+static uint32_t g_clock = 0;
 static void * (*g_sites_bt)[BT_DEPTH] = NULL;
 static int g_overflow = 0;
 static char g_buf[1 << 16];
@@ -113,6 +116,7 @@ static uint32_t id_of(void * p)
 static void note_site(uint32_t id, void * ra)
 {
     g_site[id] = ra;
+    g_seq[id] = ++g_clock;
     if (g_bt && g_sites_bt)
     {
         void * fr[BT_DEPTH + 2];
@@ -135,7 +139,7 @@ static void print_site(uint32_t id)
         for (i = 0; i < BT_DEPTH && g_sites_bt[id][i]; i++)
             n += snprintf(tmp + n, sizeof tmp - n, "%c%lx", i ? ',' : ' ', (unsigned long)g_sites_bt[id][i]);
     }
-    tmp[n++] = '\n';
+    n += snprintf(tmp + n, sizeof tmp - n, " %u\n", g_seq[id]);
     ev_put(tmp, (size_t)n);
 }
 
@@ -153,7 +157,7 @@ static void released(uint32_t id, void * ra)
     {
         /* a free the monitor will reject: print where it happened and where the block came from */
         if (g_site[id]) print_site(id);
-        ev_line("A %lu %lx\n", id, (unsigned long)ra, 0, 2);
+        ev_line("A %lu %lx %lu\n", id, (unsigned long)ra, ++g_clock, 3);
     }
     g_live[id] = 0;
 }
